@@ -9,6 +9,7 @@
 //!   (`Option` fields are written by omission and read from either form).
 
 use num_bigint::BigInt;
+use num_traits::{FromPrimitive, ToPrimitive};
 use swimos_model::{Item, Value};
 
 #[derive(PartialEq, Eq, PartialOrd, Ord, Debug, Clone)]
@@ -22,13 +23,25 @@ pub enum C {
 }
 
 pub fn canon(v: &Value) -> C {
-    canon_at(v, "", &[])
+    canon_at(v, "", &[], &[])
 }
 
 /// As `canon`, but at the given `map_paths` (same path syntax as `first_difference`) several
 /// slots with the same key collapse to the last one (the reading of a map).
-pub fn canon_maps(v: &Value, map_paths: &[&str]) -> C {
-    canon_at(v, "", map_paths)
+pub fn canon_with(v: &Value, map_paths: &[&str], opaque: &[&str]) -> C {
+    canon_at(v, "", map_paths, opaque)
+}
+
+/// Integers beyond 2^53 are compared at `f64` precision (an `f64` field reads them rounded).
+fn int(n: BigInt) -> C {
+    if n.bits() > 53 {
+        match n.to_f64().and_then(BigInt::from_f64) {
+            Some(r) => C::Num(r.to_string()),
+            None => C::Num(n.to_string()),
+        }
+    } else {
+        C::Num(n.to_string())
+    }
 }
 
 fn key_name(k: &C) -> String {
@@ -39,29 +52,29 @@ fn key_name(k: &C) -> String {
     }
 }
 
-fn canon_at(v: &Value, path: &str, map_paths: &[&str]) -> C {
+fn canon_at(v: &Value, path: &str, map_paths: &[&str], opaque: &[&str]) -> C {
+    if opaque.contains(&path) {
+        return C::Nil;
+    }
     match v {
         Value::Extant => C::Nil,
-        Value::Int32Value(n) => C::Num(BigInt::from(*n).to_string()),
-        Value::Int64Value(n) => C::Num(BigInt::from(*n).to_string()),
-        Value::UInt32Value(n) => C::Num(BigInt::from(*n).to_string()),
-        Value::UInt64Value(n) => C::Num(BigInt::from(*n).to_string()),
-        Value::BigInt(n) => C::Num(n.to_string()),
-        Value::BigUint(n) => C::Num(n.to_string()),
-        Value::Float64Value(x) => {
-            if x.is_finite() && x.fract() == 0.0 && x.abs() < 1e18 {
-                C::Num((*x as i128).to_string())
-            } else {
-                C::Num(format!("f{:?}", x))
-            }
-        }
+        Value::Int32Value(n) => int(BigInt::from(*n)),
+        Value::Int64Value(n) => int(BigInt::from(*n)),
+        Value::UInt32Value(n) => int(BigInt::from(*n)),
+        Value::UInt64Value(n) => int(BigInt::from(*n)),
+        Value::BigInt(n) => int(n.clone()),
+        Value::BigUint(n) => int(BigInt::from(n.clone())),
+        Value::Float64Value(x) => match (x.is_finite() && x.fract() == 0.0).then(|| BigInt::from_f64(*x)).flatten() {
+            Some(n) => C::Num(n.to_string()),
+            None => C::Num(format!("f{:?}", x)),
+        },
         Value::BooleanValue(b) => C::Bool(*b),
         Value::Text(t) => C::Text(t.to_string()),
         Value::Data(b) => C::Data(b.as_ref().to_vec()),
         Value::Record(attrs, items) => {
             let mut cattrs: Vec<(String, C)> = vec![];
             for (i, a) in attrs.iter().enumerate() {
-                let body = attr_body(canon_at(&a.value, &format!("{}@{}/", path, a.name), map_paths));
+                let body = attr_body(canon_at(&a.value, &format!("{}@{}/", path, a.name), map_paths, opaque));
                 if i > 0 && body == C::Nil {
                     continue;
                 }
@@ -76,11 +89,11 @@ fn canon_at(v: &Value, path: &str, map_paths: &[&str]) -> C {
                 match it {
                     Item::ValueItem(v) => {
                         let p = format!("{}item[{}]/", path, citems.len());
-                        citems.push(canon_at(v, &p, map_paths))
+                        citems.push(canon_at(v, &p, map_paths, opaque))
                     }
                     Item::Slot(k, v) => {
-                        let ck = canon_at(k, "?", &[]);
-                        let cv = canon_at(v, &format!("{}{}:/", path, key_name(&ck)), map_paths);
+                        let ck = canon_at(k, "?", &[], &[]);
+                        let cv = canon_at(v, &format!("{}{}:/", path, key_name(&ck)), map_paths, opaque);
                         if map_paths.contains(&path) {
                             cslots.retain(|(k0, _)| *k0 != ck);
                         }
